@@ -260,3 +260,15 @@ Theorem c03_before_start_spec : forall s k, before_start s k = true <->
   nth_error (tasks s) k = None \/ exists t, nth_error (tasks s) k = Some t /\ (t_st t = TAtAcquire \/ t_st t = TWaiting).
 Proof. exact before_start_spec. Qed.
 Print Assumptions c03_before_start_spec.
+
+(* monitor over the observation sequence of a run (srv/SrvMonitors.v: mon_barrier; proof: srv/SrvMonBarrier.v),
+   extracted and evaluated on every harness log, racing ones included.  Hypothesis of the harness: every fed member
+   carries its own params value (unique_params).  Scanning the observations in order: once a handler of a request
+   has been entered, no handler of a notification of an EARLIER fed message is entered or returns any more - so an
+   entry of a later request never falls between the entry and the return of an earlier notification. *)
+From JV Require SrvMonitors SrvMonBarrier.
+Theorem c03_mon_barrier_sound : forall c tr s oss, run (init_of c) tr = Some (s, oss) ->
+  SrvMonitors.unique_params (SrvMonitors.env_of tr) = true ->
+  SrvMonitors.mon_barrier (SrvMonitors.env_of tr) (concat oss) = true.
+Proof. exact SrvMonBarrier.mon_barrier_sound. Qed.
+Print Assumptions c03_mon_barrier_sound.
